@@ -284,8 +284,12 @@ fn kamino(r: &mut Report, g: &mut G) {
     match &l2c {
         Ok(Ok(c)) => {
             r.count("C20.kamino_l2c/ok");
-            if total_liq.is_zero() || (total_liq.is_negative() && *c > 0) {
-                r.violate("C20", "C20/kamino/liquidity_to_collateral-value-with-nonpositive-supply", format!("amt {} liq {} -> {}", amt, show(&total_liq), c));
+            // the program sees each 60-bit fraction truncated to its 48-bit grid (four inputs): a
+            // supply that is zero or negative only inside that band is not decidable for it
+            let band = ulp() * ri(5);
+            let trunc_free = [borrowed, u128::from_le_bytes(res.accumulated_protocol_fees_sf), f_ref, f_pend].iter().all(|x| x % 4096 == 0);
+            if (total_liq.is_zero() && trunc_free) || (total_liq < -band.clone() && *c > 0) {
+                r.violate("C20", "C20/kamino/liquidity_to_collateral-value-with-nonpositive-supply", format!("amt {} liq {} -> {} (avail {} borrowed_sf {} protocol_fees_sf {} referrer_fees_sf {} pending_referrer_fees_sf {} supply {} dec {})", amt, show(&total_liq), c, res.available_amount, borrowed, u128::from_le_bytes(res.accumulated_protocol_fees_sf), f_ref, f_pend, res.mint_total_supply, res.mint_decimals));
             } else if total_liq.is_positive() {
                 let exact = ru(amt as u128) * &total_col / &total_liq;
                 let slack = match trunc_slack(&exact, &total_liq, &total_col, res.mint_decimals) { Some(s) => s, None => { r.count("C20.degenerate_precision_not_compared"); exact.clone() + pow2(70) } };
@@ -361,7 +365,10 @@ fn solend(r: &mut Report, g: &mut G) {
     match catch_unwind(AssertUnwindSafe(|| res.liquidity_to_collateral(amt))) {
         Ok(Ok(c)) => {
             r.count("C20.solend_l2c/ok");
-            if total_liq.is_zero() || (total_liq.is_negative() && c > 0) {
+            // WAD fractions reach the program truncated to the 2^-48 grid (two inputs)
+            let band = ulp() * ri(3);
+            let trunc_free = borrowed % wad == 0 && fees % wad == 0;
+            if (total_liq.is_zero() && trunc_free) || (total_liq < -band.clone() && c > 0) {
                 r.violate("C20", "C20/solend/liquidity_to_collateral-value-with-nonpositive-supply", format!("amt {} liq {} -> {}", amt, show(&total_liq), c));
             } else if total_liq.is_positive() {
                 let exact = ru(amt as u128) * &total_col / &total_liq;
